@@ -176,6 +176,14 @@ def h_unitary(env, words, nq, order, steps, n_steps, control, method, via_defaul
                      f"TrotterSuzukiUnitary(order={order}, n_trotter_steps={steps}).build_circuit({n_steps}, control={control}, {method}) == product formula")
     sq, anc = un.qubit_indices()
     env.check_true(list(sq) == list(range(nq - len(ctl))) and list(anc) == [], "qubit_indices")
+    if isinstance(control, int):
+        # the same object asked again for the same power with ANOTHER control qubit (QPE registers of different sizes)
+        c2 = control + 1
+        circ2 = un.build_circuit(n_steps, control=c2, method=method) if not via_default else un.build_circuit(n_steps, control=c2)
+        U2 = R.unitary(circ2._gates, nq + 1)
+        S2 = product_formula([(w, a) for w, a in seq], nq + 1, [c2])
+        env.check_vec_eq([x for col in U2 for x in col], [x for col in S2 for x in col],
+                         f"same TrotterSuzukiUnitary object, build_circuit({n_steps}, control={c2}) after control={control} == product formula controlled by {c2}")
 
 
 def h_fermion_op(env, nq, mapping, order, steps, time_mode="scalar", canary=False):
